@@ -234,8 +234,83 @@ def main(tier, seed, replay=None):
     except Exception as e:  # noqa
         ck.fail("channel-reconfigure-not-applied-by-peer", {"exc": repr(e)})
     ck.case(("reconfigure",))
+    # 5. records in one stream: dump(stream, v) k times (+ a trailer); load(stream) gives them back one by one and
+    #    leaves the stream position right behind each STOP (C12_stream_of_records / fact load_stream_incremental)
+    import io as _io
+
+    class _Raw:
+        """a non-seekable reader that only knows read(n) and counts what it handed out"""
+
+        def __init__(self, data):
+            self.data, self.pos = data, 0
+
+        def read(self, n):
+            if not isinstance(n, int) or n < 0:
+                raise TypeError("read(n) with n >= 0 only")
+            d = self.data[self.pos:self.pos + n]
+            self.pos += len(d)
+            return d
+
+    nstreams = 0
+    scases, smeta = [], []
+    pool = [v for v in vals[:600] if impl_dumps(v)[0] is not None] if vals else []
+    for _ in range(0 if not pool else (150 if tier == "quick" else 3000)):
+        k = rng.randint(1, 4)
+        recs = [rng.choice(pool) for _ in range(k)]
+        trailer = rng.choice([b"", b"Q", b"\x02", b"\x02LQ", b"\x00\x00\x00\x05", bytes(rng.randrange(256) for _ in range(rng.randint(1, 6)))])
+        parts = [impl_dumps(v)[0] for v in recs]
+        buf = _io.BytesIO()
+        try:
+            for v in recs:
+                execnet.dump(buf, v)
+        except BaseException as e:  # noqa
+            ck.fail("dump-to-stream-raises:" + type(e).__name__, {"py": repr(recs)[:300]})
+            continue
+        ex = {"py": repr(recs)[:300], "trailer": list(trailer)}
+        ck.case(("stream", b"".join(parts), trailer), nontrivial=k > 1 or bool(trailer))
+        nstreams += 1
+        if buf.getvalue() != b"".join(parts):
+            ck.fail("dump-stream-is-not-the-concatenation-of-dumps", ex)
+            continue
+        whole = b"".join(parts) + trailer
+        for mk, nm in ((lambda: _io.BytesIO(whole), "bytesio"), (lambda: _Raw(whole), "raw")):
+            st = mk()
+            pos = 0
+            for v, b in zip(recs, parts):
+                try:
+                    with C.pylimit():
+                        got = C.canon(execnet.load(st))
+                except BaseException as e:  # noqa
+                    ck.fail("load-from-stream-of-records-raises:" + type(e).__name__, {**ex, "stream": nm, "at": pos})
+                    break
+                pos += len(b)
+                at = st.tell() if nm == "bytesio" else st.pos
+                if got != C.canon(v):
+                    ck.fail("load-from-stream-gives-another-record", {**ex, "stream": nm, "at": pos, "got": repr(got)[:200]})
+                    break
+                if at != pos:
+                    ck.fail("load-does-not-stop-behind-its-STOP", {**ex, "stream": nm, "expected_pos": pos, "pos": at})
+                    break
+            else:
+                if st.read(len(whole) + 1) != trailer:
+                    ck.fail("load-consumed-bytes-after-the-last-record", {**ex, "stream": nm})
+        if len(whole) < 4000:
+            scases.append([1, 1, 0, 0, 0, 0, len(whole)] + list(whole))
+            smeta.append((whole, recs[0], len(whole) - len(parts[0])))
+    if ok and scases:
+        try:
+            for out, (whole, v0, restlen) in zip(Model().run(scases), smeta):
+                if out[0] != 0:
+                    ck.broke("correspondence", "stream-first-record-model-rejects", {"bytes": list(whole)[:200]})
+                    continue
+                mv, j = C.from_tokens(out, 1)
+                if mv != C.canon(v0) or out[j] != restlen:
+                    ck.broke("correspondence", "stream-first-record-model-vs-impl", {"bytes": list(whole)[:200], "model_rest": out[j], "impl_rest": restlen})
+        except Exception as e:  # noqa
+            ck.broke("correspondence", "modelrun-stream", repr(e))
+    ck.count("record_streams", nstreams)
     if tier == "thorough" and not replay:
         other_interpreters(ck, [v for v in vals[:300] if "nan" not in repr(v)])
     ck.cov["programs"] = len(vals) + len(lcases)
     ck.cov["disagreements_checked"] = len(vals) + len(lcases)
-    return ck.finish(rule="generated values of the supported grammar compared byte-for-byte with the extracted reference encoder; generated legacy streams (PY2STRING, UNICODE, LONG, LONGLONG, PY3STRING inside lists/tuples/dicts) from an independent encoder loaded under all four coercion settings and compared with the documented table and with the model; every foreign version byte; coercion defaults and Channel.reconfigure. distinct = distinct value / (stream, setting).")
+    return ck.finish(rule="generated values of the supported grammar compared byte-for-byte with the extracted reference encoder; generated legacy streams (PY2STRING, UNICODE, LONG, LONGLONG, PY3STRING inside lists/tuples/dicts) from an independent encoder loaded under all four coercion settings and compared with the documented table and with the model; every foreign version byte; coercion defaults and Channel.reconfigure; streams of 1-4 dumped records plus a trailer read back with load() from a BytesIO and from a read(n)-only reader, comparing values, the stream position after every record and the untouched trailer, and the first record's rest length with the model. distinct = distinct value / (stream, setting).")
